@@ -211,6 +211,7 @@ struct Piece {
     origin: Origin,
     func: String,
     section: String,
+    pos: usize, // source offset the piece belongs to (spliced text: where it was inserted)
 }
 
 #[derive(Clone)]
@@ -1014,10 +1015,10 @@ fn apply(src: &str, region: Range<usize>, all_edits: Vec<Edit>, file: &str, func
             undecided(&format!("{ctx}: overlapping edits at {file}:{}", line_of(e.start)));
         }
         if e.start > cur {
-            out.push(Piece { text: src[cur..e.start].to_string(), origin: Origin::Repo { file: file.to_string(), byte: cur, line: line_of(cur) }, func: func.to_string(), section: "body".into() });
+            out.push(Piece { text: src[cur..e.start].to_string(), origin: Origin::Repo { file: file.to_string(), byte: cur, line: line_of(cur) }, func: func.to_string(), section: "body".into(), pos: cur });
         }
         if !e.text.is_empty() {
-            out.push(Piece { text: e.text.clone(), origin: e.origin.clone(), func: func.to_string(), section: e.section.clone() });
+            out.push(Piece { text: e.text.clone(), origin: e.origin.clone(), func: func.to_string(), section: e.section.clone(), pos: e.start });
         }
         if let Some(c) = &e.copy {
             // only edits strictly inside the copied region (not the loop's own invariant, not the chain edits)
@@ -1030,12 +1031,12 @@ fn apply(src: &str, region: Range<usize>, all_edits: Vec<Edit>, file: &str, func
         }
     }
     if cur < region.end {
-        out.push(Piece { text: src[cur..region.end].to_string(), origin: Origin::Repo { file: file.to_string(), byte: cur, line: line_of(cur) }, func: func.to_string(), section: "body".into() });
+        out.push(Piece { text: src[cur..region.end].to_string(), origin: Origin::Repo { file: file.to_string(), byte: cur, line: line_of(cur) }, func: func.to_string(), section: "body".into(), pos: cur });
     }
 }
 
 fn glue(out: &mut Vec<Piece>, text: &str, what: &str) {
-    out.push(Piece { text: text.to_string(), origin: Origin::Gen { what: what.to_string() }, func: String::new(), section: "glue".into() });
+    out.push(Piece { text: text.to_string(), origin: Origin::Gen { what: what.to_string() }, func: String::new(), section: "glue".into(), pos: 0 });
 }
 
 fn region_start(attrs: &[syn::Attribute], whole: Range<usize>) -> usize {
@@ -1071,7 +1072,7 @@ fn main() {
     for ch in &unit.chunks {
         match ch {
             Chunk::Raw { file, line0, text } => {
-                pieces.push(Piece { text: text.clone(), origin: Origin::Unit { file: file.clone(), line: *line0 }, func: String::new(), section: "raw".into() });
+                pieces.push(Piece { text: text.clone(), origin: Origin::Unit { file: file.clone(), line: *line0 }, func: String::new(), section: "raw".into(), pos: 0 });
             }
             Chunk::Extract(ex) => {
                 let full = format!("{}/{}", repo, ex.file);
@@ -1272,12 +1273,12 @@ fn main() {
                 if func_label.is_empty() {
                     // whole impl/trait: label pieces by the member that contains their origin byte
                     let members: Vec<(Range<usize>, String)> = match found_members(src, &file.items, &ex.path, &ctx) { m => m };
-                    let mut last = String::new();
                     for p in pieces[before..].iter_mut() {
-                        if let Origin::Repo { byte, .. } = &p.origin {
-                            if let Some((_, n)) = members.iter().find(|(r, _)| r.contains(byte)) { last = n.clone(); }
+                        // a piece belongs to the member whose source range contains it (inclusive end: text
+                        // spliced right after the signature or at the end of the body)
+                        if let Some((_, n)) = members.iter().find(|(r, _)| r.start <= p.pos && p.pos <= r.end) {
+                            p.func = n.clone();
                         }
-                        p.func = last.clone();
                     }
                 }
                 if !suffix.is_empty() { glue(&mut pieces, &suffix, "impl-close"); }
